@@ -140,6 +140,13 @@ class Tracer:
                     os.kill(REAL_GETPID(), signal.SIGKILL)
                 finally:
                     os._exit(137)
+            if f.kind == "sibling":
+                # a second producer (another job working in the same directory) runs from start to
+                # end right here, between two system calls of this one; its calls are traced as well
+                cb = getattr(self, "sibling", None)
+                if cb is not None:
+                    cb()
+                return None
             if f.kind == "enospc":
                 raise OSError(errno.ENOSPC, "No space left on device (injected)", path)
             if f.kind == "eio_short":
